@@ -31,6 +31,21 @@ STUBS = []
 TIE = 1e-10
 
 
+def _sensitive_pairs():
+    out = []
+    for w in range(10, 61):
+        for c in range(1, 100):
+            p = c / 100
+            for r in range(1, w + 1):
+                if (r > p * w) != (r / w > p):
+                    out.append((w, p))
+                    break
+    return out
+
+
+_SENSITIVE = _sensitive_pairs() or [(20, 0.2)]
+
+
 def scenarios(tier):
     k = 1 if tier == "quick" else 10
     return [("batch", 330 * k), ("stream", 300 * k)]
@@ -56,6 +71,9 @@ def gen(rng, scenario, tier):
     d = rng.randint(1, 2)
     w = rng.randint(6, 25)
     pers = rng.choice([0.05, 0.1, 0.2, 0.4])
+    if rng.random() < 0.3:
+        # pairs for which "run > persistence * window" and "run / window > persistence" round differently
+        w, pers = rng.choice(_SENSITIVE)
     cfg = {"window_size": w, "persistence": pers, "alpha": rng.choice([0.05, 0.2, 0.4, 0.7]), "bootstrap_samples": rng.randint(5, 20),
            "count_ubound": rng.randint(2, 6)}
     ev = []
